@@ -202,6 +202,13 @@ def applyVar (f : File) (fns : List (String × Fn)) (v : Var) : Var :=
 /-- `applyAlongDimensions(**{dim: fn})` -/
 def applyFile (f : File) (fns : List (String × Fn)) : Except String File :=
   if fns.any (fun p => (f.dim? p.1).isNone) then .error "KeyError" else
+  -- numpy refuses min/max over a zero-length axis
+  if fns.any (fun p => (p.2 == .min || p.2 == .max) && f.dimLen p.1 == 0 &&
+      (f.vars.any (fun v => v.dims.contains p.1) || true)) then .error "ValueError" else
+  -- numpy.apply_along_axis (callables) refuses arrays with a zero-length iteration axis
+  if fns.any (fun p => !(p.2 == .mean || p.2 == .sum || p.2 == .min || p.2 == .max || p.2 == .var) &&
+      f.vars.any (fun v => v.dims.contains p.1 && v.dims.any (fun k => k != p.1 && f.dimLen k == 0)))
+    then .error "ValueError" else
   -- new length: the function applied to the coordinate variable (or arange)
   let newLen (d : Dim) : Nat := match fnOf fns d.name with
     | some fn => (fn.apply ((List.range d.len).map (fun i => some ((i : Nat) : Rat)))).length
@@ -310,6 +317,8 @@ inductive Expr where
   | lit (q : Rat)
   | bin (op : Op) (a b : Expr)
   | neg (a : Expr)
+  | mlt (a : Expr) (c : Rat)       -- np.ma.masked_less(a, c)
+  | minv (a : Expr)                -- np.ma.masked_invalid(a)
 deriving Repr
 
 def Expr.firstVar : Expr → Option String
@@ -317,6 +326,8 @@ def Expr.firstVar : Expr → Option String
   | .lit _ => none
   | .bin _ a b => match a.firstVar with | some n => some n | none => b.firstVar
   | .neg a => a.firstVar
+  | .mlt a _ => a.firstVar
+  | .minv a => a.firstVar
 
 def constLike : Arr Cell → Rat → Arr Cell := fun a q => Arr.mapCells (fun _ => some q) a
 
@@ -325,9 +336,98 @@ def Expr.eval (f : File) (shapeOf : Arr Cell) : Expr → Option (Arr Cell)
   | .var n => (f.var? n).map (·.data)
   | .lit q => some (constLike shapeOf q)
   | .neg a => (a.eval f shapeOf).map (Arr.mapCells (fun c => c.map (fun x => -x)))
+  | .mlt a q => (a.eval f shapeOf).map (Arr.mapCells (fun c => match c with
+      | some x => if x < q then none else some x
+      | none => none))
+  | .minv a => a.eval f shapeOf      -- non-finite cells are already `none` in this model
   | .bin op a b => match a.eval f shapeOf, b.eval f shapeOf with
     | some x, some y => some (zipCells (fun a b => op.cell false a b) x y)
     | _, _ => none
+
+/-! ### the remaining structural operations (C01) -/
+
+def cellAt (a : Arr Cell) (idx : List Nat) : Cell := (Arr.get a idx).getD none
+
+def File.names (f : File) : List String := f.vars.map (·.name)
+
+/-- `subsetVariables(varkeys, exclude)` (no coordinate variables declared) -/
+def subsetFile (f : File) (keys : List String) (exclude : Bool) : Except String File :=
+  let keys' := if exclude then f.names.filter (fun k => !keys.contains k) else keys
+  if keys'.any (fun k => (f.var? k).isNone) then .error "KeyError"
+  else .ok { f with vars := keys'.filterMap f.var? }
+
+/-- `renameVariables(old=new)` : the renamed variable goes last; a variable already called `new` is
+replaced; renaming a variable to its own name deletes it (copy under the same key, then delete) -/
+def renameVarFile (f : File) (old new : String) : Except String File :=
+  match f.var? old with
+  | none => .error "KeyError"
+  | some v =>
+    let rest := f.vars.filter (fun w => w.name != old && w.name != new)
+    let placed := if old == new then f.vars.filter (·.name != old) else
+      -- copyVariable assigns under `new` (position of an existing `new`, else appended), then deletes `old`
+      if (f.var? new).isSome then (f.vars.filter (·.name != old)).map (fun w => if w.name == new then { v with name := new } else w)
+      else rest ++ [{ v with name := new }]
+    .ok { f with vars := placed }
+
+/-- `renameDimensions(old=new)` for a new name that is not yet a dimension -/
+def renameDimFile (f : File) (old new : String) : Except String File :=
+  if old == new then .ok f else
+  if (f.dim? old).isNone then .error "KeyError" else
+  if (f.dim? new).isSome then .error "ValueError" else
+  .ok { f with
+    dims := if old == new then f.dims else (f.dims.filter (·.name != old)) ++ ((f.dim? old).map (fun d => { d with name := new })).toList,
+    vars := f.vars.map (fun v => { v with dims := v.dims.map (fun k => if k == old then new else k) }) }
+
+/-- `removeSingleton(dimkey)` -/
+def removeSingletonFile (f : File) (dimkey : Option String) : File :=
+  let removed := (f.dims.filter (fun d => d.len == 1 && (dimkey.isNone || dimkey == some d.name))).map (·.name)
+  { f with
+    dims := f.dims.filter (fun d => !removed.contains d.name),
+    vars := f.vars.map (fun v =>
+      let keepPos := (List.range v.dims.length).filter (fun i => !removed.contains (v.dims.getD i ""))
+      let newdims := keepPos.map (fun i => v.dims.getD i "")
+      let sh := newdims.map f.dimLen
+      let old (idx : List Nat) : List Nat :=
+        (List.range v.dims.length).map (fun i => match keepPos.idxOf? i with | some j => idx.getD j 0 | none => 0)
+      { v with dims := newdims, data := Arr.build sh (fun idx => cellAt v.data (old idx)) }) }
+
+/-- `insertDimension(**{name: len}, newonly, multionly, before, after)` for one new dimension -/
+def insertDimFile (f : File) (name : String) (len : Nat) (newonly multionly : Bool)
+    (before after : Option String) : File :=
+  let dims' := if (f.dim? name).isSome then f.dims else f.dims ++ [⟨name, len, false⟩]
+  let L := if (f.dim? name).isSome then f.dimLen name else len
+  { f with
+    dims := dims',
+    vars := f.vars.map (fun v =>
+      if (newonly ∧ v.dims.contains name) ∨ (multionly ∧ v.dims.length == 1) then v else
+      let bi? : Option Nat :=
+        match before, after with
+        | some b, _ => if v.dims.contains b then some (v.dims.idxOf b) else
+            (match after with
+              | some a => if v.dims.contains a then some (v.dims.idxOf a + 1) else none
+              | none => none)
+        | none, some a => if v.dims.contains a then some (v.dims.idxOf a + 1) else none
+        | none, none => some 0
+      match bi? with
+      | none => v
+      | some bi =>
+        let newdims := v.dims.take bi ++ [name] ++ v.dims.drop bi
+        let sh := newdims.map (fun k => if k == name then L else f.dimLen k)
+        { v with dims := newdims, data := Arr.build sh (fun idx => cellAt v.data (idx.eraseIdx bi)) }) }
+
+/-- `reorderDimensions(oldorder, neworder)` -/
+def reorderFile (f : File) (neworder : List String) : Except String File :=
+  let bad := f.vars.any (fun v =>
+    let vno := neworder.filter (fun k => v.dims.contains k)
+    !vno.isEmpty && vno.length != v.dims.length)
+  if bad then .error "AssertionError" else
+  .ok { f with vars := f.vars.map (fun v =>
+    let vno := neworder.filter (fun k => v.dims.contains k)
+    if vno.isEmpty then v else
+    let sh := vno.map f.dimLen
+    -- old axis j holds dimension v.dims[j], which is at position (vno.idxOf v.dims[j]) of the new order
+    let old (idx : List Nat) : List Nat := v.dims.map (fun k => idx.getD (vno.idxOf k) 0)
+    { v with dims := vno, data := Arr.build sh (fun idx => cellAt v.data (old idx)) }) }
 
 /-! ### wire format -/
 open Wire
@@ -455,6 +555,10 @@ def parseExpr : Nat → List String → Option (Expr × List String)
   | _ + 1, "var" :: n :: rest => some (.var n, rest)
   | _ + 1, "lit" :: q :: rest => (parseRat q).map (fun r => (.lit r, rest))
   | fuel + 1, "neg" :: rest => (parseExpr fuel rest).map (fun (e, r) => (.neg e, r))
+  | fuel + 1, "minv" :: rest => (parseExpr fuel rest).map (fun (e, r) => (.minv e, r))
+  | fuel + 1, "mlt" :: q :: rest => match parseRat q with
+    | some c => (parseExpr fuel rest).map (fun (e, r) => (.mlt e c, r))
+    | none => none
   | fuel + 1, "bin" :: o :: rest =>
     match parseOp o, parseExpr fuel rest with
     | some op, some (a, r1) => (parseExpr fuel r1).map (fun (b, r2) => (.bin op a b, r2))
@@ -490,6 +594,48 @@ def runC06 : List String → String
           let nv : Var := { tv with name := target, data := dat, attrs := attrs }
           showRes (.ok { f with vars := keep ++ [nv] })
     | _, _ => "err parse"
+  | _ => "err bad-op"
+
+/-- one operation of a C01 sequence -/
+def runOp (f : File) (tok : String) : Except String File :=
+  match tok.splitOn "@" with
+  | ["copy"] => .ok f
+  | ["slice", sels, nd] => match parseSels sels with
+    | some ss => sliceFile f ss nd
+    | none => .error "parse"
+  | ["apply", fns] => match parseFns fns with
+    | some ff => applyFile f ff
+    | none => .error "parse"
+  | ["subset", names, ex] => subsetFile f (parseNames names) (ex == "1")
+  | ["renamevar", o, n] => renameVarFile f o n
+  | ["renamedim", o, n] => renameDimFile f o n
+  | ["removesingleton", d] => .ok (removeSingletonFile f (if d = "_" then none else some d))
+  | ["insertdim", name, len, no, mo, b, a] => match parseNat len with
+    | some l => .ok (insertDimFile f name l (no == "1") (mo == "1")
+        (if b = "_" then none else some b) (if a = "_" then none else some a))
+    | none => .error "parse"
+  | ["reorder", names] => reorderFile f (parseNames names)
+  | ["stackself", d] => stackFiles [f, f] d
+  | ["binopself", op] => match parseOp op with
+    | some o => binopFile o f f []
+    | none => .error "parse"
+  | ["maskgt", q] => match parseRat q with
+    | some g => .ok (maskFile f ⟨none, Arr.leaf none, some g, none, none, none, none⟩ [] false)
+    | none => .error "parse"
+  | _ => .error "bad-op"
+
+/-- run a sequence, printing every intermediate state; stops at the first error -/
+def runSeq (f : File) : List String → List String
+  | [] => []
+  | tok :: rest => match runOp f tok with
+    | .ok g => ("ok " ++ showFile g) :: runSeq g rest
+    | .error e => ["err " ++ e]
+
+def runC01 : List String → String
+  | "run" :: d :: v :: a :: ops =>
+    match parseFile d v a with
+    | some f => " || ".intercalate (runSeq f ops)
+    | none => "err parse"
   | _ => "err bad-op"
 
 end PFile
